@@ -4,24 +4,41 @@ Op lines (one self-contained case per line; doubles as 16 hex digits, `nan` = mi
   scaling run <threads> <batch> <xmode> <tmode> <groups> <tkind> <tsize> <rows> <cols> <X> <tcols> <Y> <samples> <W> <b>
   scaling feature <threads> <batch> <ifeature> <groups> <tkind> <tsize> <rows> <cols> <X> <tcols> <Y> <samples>
   <groups> = <ngroups> (<kind S|M|F|T> <nfeat> <size>...)...   the input features in flatten-column order
+  scaling xclass <kind S|M> <classes> <astarget 0|1> <rows> <labels> <samples>     class statistics (xclass_stats_t)
+  scaling t4 <batch> <tmode> <d1> <d2> <d3> <rows> <Y> <samples>      structured (4-D) target + feature with dims (d1, d2, d3)
 The harness appends `<eps> <hi> <lo>` (epsilon2, numeric_limits max/lowest) for the Lean model.
 """
 import math, os
 from fractions import Fraction
 import vlib
 from vlib import Toks, lst, f2h, h2f
+from props import c14_translate
 
 ID = "C14"
 LEVEL = "proof"
 HARNESS = "c14"
-LEAN_MODULES = ["NanoVerif.Props.C14"]
+LEAN_MODULES = ["NanoVerif.Props.C14"]   # imports Proofs/ScalingLemmas, ScalingGen (Gen/ScalingGuards), ScalingTop
 NS = "NanoVerif.Scaling."
 OBLIGATIONS = [NS + t for t in [
     "div_mul_one", "upscale_scale_id", "upscale_scale_id_row", "minmax_range", "mean_centered", "standard_unit",
     "categorical_identity", "missing_to_zero_and_ignored", "var_nonneg", "clamp_is_identity",
     "affine_upscale_same_predictor_row", "affine_upscale_same_predictor", "affine_upscale_same_predictor_of_data",
     "affine_upscale_guard",
+    # gap-closing round
+    "div_mul_one_regimes", "epsilon2_pos", "div_mul_one_generated", "upscale_scale_id_generated", "onepass_eq_twopass",
+    "flatten_categorical_never_rescaled", "targets_and_feature_stats_guards", "targets_scaling_componentwise",
+    "targets_roundtrip4",
+    "model_cmax_is_generated", "model_init_is_generated", "model_push_is_generated", "model_finalize_is_generated",
+    "model_nan2zero_is_generated", "model_scale_is_generated", "model_upscale_is_generated", "model_makeScaling_is_generated",
+    "enableMask_spec", "column2feature_isSome",
+    "makeHashes_sorted", "mem_makeHashes", "find_spec", "sample_classified", "class_weights_pos",
 ]]
+
+
+def translate():
+    """Gen/ScalingGuards.lean: ::done / ::update / scale / upscale / make_scaling / nan2zero / ctor fill values / epsilon2 from the source"""
+    return c14_translate.translate()
+
 TRUSTED = [
     "Lean 4.33.0 kernel; Mathlib modules Mathlib.Algebra.Order.Field.Basic, Mathlib.Algebra.Order.Field.Rat, "
     "Mathlib.Tactic.Ring/Linarith/FieldSimp/LinearCombination/NormNum (only in Proofs/ScalingLemmas.lean and Props/C14.lean)",
@@ -33,6 +50,11 @@ TRUSTED = [
     "linear::predict, flatten_iterator_t (cached and not), vs the same model compiled at Float (driver_c14)",
     "Lean Float = g++ double for + - * / sqrt in the same order (no -ffast-math, no FMA contraction on the x86-64 baseline)",
     "tools/props/c14.py generator + independent python oracle (exact rational statistics); harness/c14.cpp; g++/libstdc++/Eigen",
+    "tools/props/c14_translate.py: the translator of ::done / ::update / scale / upscale / make_scaling / nan2zero / the constructor's fill "
+    "values / epsilon2 (statement-level: let, attribute assignment, compound assignment, if/else, switch over scaling_type) into "
+    "Gen/ScalingGuards.lean; Proofs/ScalingGen.lean proves the hand-written model text equal to it for every scalar type",
+    "std::lower_bound's contract (first position whose element is not less, on a partitioned range; the range is proved strictly "
+    "increasing) and nano::hash of a multi-label row (reported per sample by the harness) in the model of xclass_stats_t",
 ]
 ASSUMPTIONS = [
     "theorems are about exact arithmetic (any linear ordered field); the standard deviation enters as a value sd >= 0 with "
@@ -54,7 +76,11 @@ RULE = ("random in-memory datasets 1..300 samples x 1..20 flatten columns (singl
         "single-sample, all-missing, NaN/inf patterns, small integers, two-valued; statistics over a random sample subset "
         "(sorted / shuffled / with duplicates / empty), random batch; 4x4 scaling modes for inputs and targets; random W "
         "(1..5 x 1..20) and b; a case is non-trivial when some enabled column is degenerate (constant, N <= 1) or a scaling "
-        "other than none meets a column with >= 2 distinct values; distinct by op text")
+        "other than none meets a column with >= 2 distinct values; distinct by op text. Gap-closing round: boundary columns whose "
+        "range / deviation is exactly epsilon2, one ulp below, one ulp above, eps/2, 2 eps, 2^-27 / 2^-26 around power-of-two offsets, "
+        "N = 0, 1, 2, 3 x 4 modes (all arithmetic of the code on them is exact, so the regime is decided exactly in Float; counted as "
+        "regime/* in the distribution); family t4: structured targets / features with dims up to (4,2,2) through the tensor4d overloads; "
+        "family xclass: single / multi-label class statistics with missing labels, skewed classes, feature and target variants")
 FLAVOUR = {"quick": "plain", "thorough": "asan"}
 HARNESS_TIMEOUT = 1500
 
@@ -77,6 +103,12 @@ def tcols_of(kind, size):
 
 
 def fmt(c):
+    if c["op"] == "xclass":
+        return " ".join(["scaling", "xclass", c["kind"], str(c["classes"]), str(c["astarget"]), str(c["rows"]),
+                         lst([v for r in c["labels"] for v in r]), lst(c["samples"])])
+    if c["op"] == "t4":
+        return " ".join(["scaling", "t4", str(c["batch"]), str(c["tmode"]), str(c["d1"]), str(c["d2"]), str(c["d3"]), str(c["rows"]),
+                         lst([v for r in c["Y"] for v in r], f2h), lst(c["samples"])])
     g = [str(len(c["groups"]))]
     for k, sizes in c["groups"]:
         g += [k, lst(sizes)]
@@ -100,7 +132,26 @@ def chunk(v, n, k):
 def parse(op):
     t = Toks(op)
     t.s()
-    c = dict(op=t.s(), threads=t.int(), batch=t.int())
+    kind = t.s()
+    if kind == "xclass":
+        c = dict(op="xclass", kind=t.s(), classes=t.int(), astarget=t.int(), rows=t.int())
+        per = 1 if c["kind"] == "S" else c["classes"]
+        c["labels"] = chunk(t.ints(), per, c["rows"])
+        c["samples"] = t.ints()
+        rest = t.rest()
+        c["pairs"] = [(int(rest[1 + 2 * i]), int(rest[2 + 2 * i])) for i in range(int(rest[0]))] if rest else None
+        c.update(cols=0, tcols=0, X=[], Y=[], groups=[], xmode=0, tmode=0)
+        return c
+    if kind == "t4":
+        c = dict(op="t4", threads=1, batch=t.int(), tmode=t.int(), d1=t.int(), d2=t.int(), d3=t.int(), rows=t.int())
+        size = c["d1"] * c["d2"] * c["d3"]
+        c["Y"] = chunk(t.fs(), size, c["rows"]); c["X"] = c["Y"]
+        c["samples"] = t.ints()
+        c.update(cols=size, tcols=size, groups=[("T", [size])], tkind="T", tsize=size, xmode=0)
+        rest = t.rest()
+        c["eps"] = h2f(rest[0]) if rest else 1e-8
+        return c
+    c = dict(op=kind, threads=t.int(), batch=t.int())
     if c["op"] == "run":
         c["xmode"] = t.int(); c["tmode"] = t.int()
     else:
@@ -296,11 +347,121 @@ def const_sweep(rng, n, xmode, tmode, part):
                 tcols=3, Y=Y, samples=list(range(n)), W=W, b=b)
 
 
+EPS = 1e-8          # epsilon2<double>(): the harness reports the real one, the oracle uses the reported one
+
+
+def onepass_sd(vals):
+    """the standard deviation exactly as ::update / ::done compute it (same operations, same order): used by the GENERATOR only,
+    to know which regime a boundary case lands in (the oracle never uses it)"""
+    n = len(vals); s1 = 0.0; s2 = 0.0
+    for v in vals:
+        s1 += v; s2 += v * v
+    if n < 2:
+        return 0.0
+    return math.sqrt(max((s2 - s1 * s1 / n) / (n - 1.0), 0.0))
+
+
+def boundary_columns():
+    """(name, values) of columns whose range / deviation sits exactly on, one ulp below and one ulp above epsilon; all arithmetic
+    of the code on them is exact (zero minimum, or power-of-two offsets and spreads), so the regime is decided exactly in Float"""
+    e = EPS; lo = math.nextafter(e, 0.0); hi = math.nextafter(e, 1.0)
+    cols = []
+    for nm, r in (("range=eps", e), ("range<eps", lo), ("range>eps", hi), ("range=eps/2", e / 2), ("range=2eps", 2 * e)):
+        cols.append((nm + "/N2", [0.0, r]))
+        cols.append((nm + "/N3", [0.0, r, 0.0]))
+        cols.append((nm + "/N3neg", [-r, 0.0, -r / 2]))
+    for nm, r in (("range=2^-27", 2.0 ** -27), ("range=2^-26", 2.0 ** -26)):       # 7.45e-9 < eps < 1.49e-8, around an offset
+        for off in (1.0, -4.0, 1024.0):
+            cols.append((nm + f"/off{off}", [off, off + r]))
+    # deviation: {-x, 0, x} has one-pass variance fl(x^2) and deviation sqrt(fl(x^2)) = x
+    for nm, x in (("sd=eps", e), ("sd<eps", lo), ("sd>eps", hi), ("sd=eps/2", e / 2), ("sd=2eps", 2 * e)):
+        cols.append((nm + "/N3", [-x, 0.0, x]))
+        cols.append((nm + "/N5", [-x, 0.0, x, x, -x]))
+    # deviation below eps while the range is above it (and N = 2: sd = range / sqrt 2)
+    cols.append(("sd<eps<=range/N2", [0.0, 1.2e-8]))
+    cols.append(("sd<eps<=range/N9", [0.0] * 8 + [1.5e-8]))
+    cols.append(("N1", [3.5]))
+    cols.append(("N0", []))
+    cols.append(("N2/equal", [0.75, 0.75]))
+    cols.append(("N3/equal", [0.1, 0.1, 0.1]))
+    return cols
+
+
+def regime_cases(rng, tier):
+    """every boundary column x every mode (inputs and targets use the same mode), as continuous scalar features (enabled) — plus the
+    same columns as the target; unseen rows with ordinary values are appended so that scale / upscale act on other data as well"""
+    cols = boundary_columns()
+    out = []
+    width = 6
+    for xmode in range(4):
+        for start in range(0, len(cols), width):
+            part = cols[start:start + width]
+            n = max(len(v) for _, v in part)
+            rows = n + 2
+            X = []
+            for i in range(rows):
+                row = []
+                for _, v in part:
+                    if i < len(v):
+                        row.append(v[i])
+                    elif i < n:
+                        row.append(NAN)
+                    else:
+                        row.append(rng.choice([0.5, -3.0, 1e-8, 2e-8, 7.0]))
+                X.append(row)
+            tcol = rng.choice(cols)[1]
+            Y = [[(tcol[i] if i < len(tcol) else (NAN if i < n else 1.25))] for i in range(rows)]
+            W, b = gen_weights(rng, 1, len(part))
+            if any(w == 0.0 for w in W[0]):
+                W = [[(w if w != 0.0 else 1.0) for w in W[0]]]
+            out.append(dict(op="run", threads=1, batch=rng.choice([1, 2, 1000]), xmode=xmode, tmode=xmode,
+                            groups=[("F", [1] * len(part))], tkind="F", tsize=1, rows=rows, cols=len(part), X=X, tcols=1, Y=Y,
+                            samples=list(range(n)), W=W, b=b))
+    return out
+
+
+def gen_t4(rng, size):
+    d1, d2, d3 = rng.choice([(1, 1, 1), (2, 1, 1), (1, 3, 1), (1, 1, 2), (2, 2, 1), (2, 3, 2), (3, 2, 2), (1, 2, 3), (2, 1, 3), (4, 2, 2)])
+    rows = rng.range(1, 6) if size == "tiny" else rng.range(2, 30)
+    samples = gen_samples(rng, rows)
+    n = d1 * d2 * d3
+    columns = [gen_column(rng, rows, samples)[0] for _ in range(n)]
+    if rng.chance(0.3):                      # boundary columns in some components
+        bc = boundary_columns()
+        for _ in range(rng.range(1, min(3, n))):
+            nm, v = rng.choice(bc)
+            j = rng.below(n)
+            columns[j] = [(v[samples.index(i)] if (i in samples and samples.index(i) < len(v)) else NAN) for i in range(rows)]
+    Y = [[columns[j][i] for j in range(n)] for i in range(rows)]
+    return dict(op="t4", batch=rng.choice([1, 2, 3, 7, 1000]), tmode=rng.below(4), d1=d1, d2=d2, d3=d3, rows=rows, Y=Y, samples=samples)
+
+
+def gen_xclass(rng):
+    kind = rng.choice(["S", "M"])
+    classes = rng.range(2, 6) if kind == "S" else rng.range(1, 4)
+    astarget = 1 if rng.chance(0.3) else 0
+    rows = rng.range(1, 8) if rng.chance(0.5) else rng.range(8, 40)
+    pm = 0.0 if astarget else rng.choice([0.0, 0.1, 0.5, 1.0])
+    skew = rng.chance(0.5)
+    labels = []
+    for _ in range(rows):
+        if rng.chance(pm):
+            labels.append([-1] if kind == "S" else [-1] + [0] * (classes - 1))
+        elif kind == "S":
+            labels.append([0 if (skew and rng.chance(0.7)) else rng.below(classes)])
+        else:
+            labels.append([(1 if rng.chance(0.2 if skew else 0.5) else 0) for _ in range(classes)])
+    return dict(op="xclass", kind=kind, classes=classes, astarget=astarget, rows=rows, labels=labels, samples=gen_samples(rng, rows))
+
+
 def gen(rng, tier):
     ops = []
     cp = os.path.join(vlib.VERIF, "corpus", "C14", "ops.txt")
     if os.path.exists(cp):
         ops += [l.strip() for l in open(cp) if l.strip() and not l.startswith("#")]
+    # every (mode, N, range / deviation regime) of ::done, boundaries hit exactly
+    for c in regime_cases(rng, tier):
+        ops.append(fmt(c))
     # exhaustive-small: constant columns, N = 2..10, every mode (inputs) x a cycling mode (targets)
     k = 0
     for n in range(2, 11):
@@ -324,6 +485,10 @@ def gen(rng, tier):
         ops.append(fmt(gen_case(rng, "large")))
     for _ in range(nrand[3]):
         ops.append(fmt(gen_case(rng, rng.choice(["tiny", "small", "small"]), op="feature")))
+    for _ in range(120 if tier == "quick" else 1500):
+        ops.append(fmt(gen_t4(rng, rng.choice(["tiny", "small"]))))
+    for _ in range(150 if tier == "quick" else 2000):
+        ops.append(fmt(gen_xclass(rng)))
     return ops
 
 
@@ -413,6 +578,25 @@ def check_block(what, data, sel, enabled, mode, st, S, Uv, eps):
                     return fail("stats-stdev", f"stdev {st['sd'][j]!r}, exact {math.sqrt(cs.var)!r}")
             elif st["sd"][j] != 0.0:
                 return fail("stats-stdev", f"stdev {st['sd'][j]!r} of a single sample")
+        # -- the (de)normalisers, regime by regime: div * mul = 1 always; identity for N <= 1 and for categorical columns; for
+        #    N >= 2 the multiplier is the range (resp. the deviation) when it reaches epsilon and epsilon below that
+        dr, mr, dsd, msd = st["div_range"][j], st["mul_range"][j], st["div_sd"][j], st["mul_sd"][j]
+        if not (abs(dr * mr - 1.0) <= 4 * U and abs(dsd * msd - 1.0) <= 4 * U):
+            return fail("div-mul-one", f"div_range*mul_range = {dr * mr!r}, div_stdev*mul_stdev = {dsd * msd!r}")
+        if not (mr > 0.0 and msd > 0.0):
+            return fail("div-mul-one", f"multipliers {mr!r}, {msd!r} are not positive")
+        if not enabled[j] or cs.n <= 1:
+            if (dr, mr, dsd, msd) != (1.0, 1.0, 1.0, 1.0):
+                return fail("guard-identity", f"N={cs.n}: (de)normalisers {(dr, mr, dsd, msd)!r} instead of 1")
+        else:
+            rng_ = cs.mx - cs.mn                    # both are doubles of the data: the code forms the same difference
+            want = rng_ if rng_ >= eps else eps
+            if mr != want or dr != 1.0 / want:
+                return fail("guard-range", f"range {rng_!r} (eps {eps!r}): mul_range {mr!r}, div_range {dr!r}; advertised {want!r}, {1.0 / want!r}")
+            sd = st["sd"][j]
+            want = sd if sd >= eps else eps
+            if sd == sd and (msd != want or dsd != 1.0 / want):
+                return fail("guard-stdev", f"stdev {sd!r} (eps {eps!r}): mul_stdev {msd!r}, div_stdev {dsd!r}; advertised {want!r}, {1.0 / want!r}")
         # -- cell by cell: missing -> 0, categorical untouched, upscale(scale(x)) = x
         for i in range(rows):
             x = col[i]; s = S[i][j]; u = Uv[i][j]
@@ -456,8 +640,72 @@ def check_block(what, data, sel, enabled, mode, st, S, Uv, eps):
     return None
 
 
+def oracle_xclass(c, res):
+    """xclass_stats_t: classes = the distinct labelings of the present selected samples (in increasing hash order), counts, class
+    index per sample (-1 and weight 0 for a missing one), weights = 1 / (count_c * sum_c' 1/count_c'): positive, every class carries
+    the same total weight; continuous features / targets refused"""
+    r = Toks(res)
+    if r.s() != "ok":
+        return tagged("xclass", f"implementation did not answer ok: {res[:80]}")
+    sel = c["samples"]
+    keys = [tuple(c["labels"][i]) for i in sel]
+    present = [k[0] >= 0 for k in keys]
+    pairs = c["pairs"]
+    if pairs is None or len(pairs) != len(sel):
+        return tagged("xclass", "the harness did not report the hashes")
+    # the reported hashes must separate the labelings (collision = a different finding) and presence must agree
+    h_of = {}
+    for k, p, (pp, h) in zip(keys, present, pairs):
+        if bool(pp) != p:
+            return tagged("xclass-present", f"labeling {k} reported present={pp}")
+        if p:
+            if h_of.setdefault(k, h) != h:
+                return tagged("xclass-hash", f"labeling {k} hashed to two values")
+    if len(set(h_of.values())) != len(h_of):
+        return tagged("xclass-hash-collision", "two distinct labelings share a hash")
+    if c["kind"] == "S" and any(h_of[k] != k[0] for k in h_of):
+        return tagged("xclass-hash", "single-label hash is not the label")
+    order = sorted(h_of, key=lambda k: h_of[k])
+    counts = [sum(1 for k, p in zip(keys, present) if p and k == o) for o in order]
+    for blk in range(1 + c["astarget"]):
+        n = r.int(); hashes = [int(r.s()) for _ in range(n)]
+        csamples = r.ints(); sclasses = r.ints(); weights = r.fs()
+        name = "feature" if blk == 0 else "target"
+        if hashes != [h_of[o] for o in order]:
+            return tagged("xclass-hashes", f"{name}: class hashes {hashes[:6]} are not the sorted distinct hashes of the present samples")
+        if any(a >= b for a, b in zip(hashes, hashes[1:])):
+            return tagged("xclass-hashes", f"{name}: class hashes not strictly increasing")
+        if csamples != counts:
+            return tagged("xclass-counts", f"{name}: class counts {csamples} != {counts}")
+        if len(sclasses) != len(sel) or len(weights) != len(sel):
+            return tagged("xclass-sizes", f"{name}: per-sample outputs have the wrong length")
+        inv = sum(Fraction(1, n_) for n_ in counts) if counts else None
+        tot = [0.0] * len(order)
+        for i, (k, p) in enumerate(zip(keys, present)):
+            if not p:
+                if sclasses[i] != -1 or weights[i] != 0.0:
+                    return tagged("xclass-missing", f"{name}: missing sample {i} got class {sclasses[i]} weight {weights[i]!r}")
+                continue
+            ci = order.index(k)
+            if sclasses[i] != ci:
+                return tagged("xclass-class", f"{name}: sample {i} ({k}) got class {sclasses[i]}, expected {ci}")
+            want = float(1 / (inv * counts[ci]))
+            if not (weights[i] > 0.0 and abs(weights[i] - want) <= 1e-12 * want):
+                return tagged("xclass-weight", f"{name}: sample {i} weight {weights[i]!r}, advertised {want!r}")
+            tot[ci] += weights[i]
+        if tot and max(tot) - min(tot) > 1e-12 * max(tot):
+            return tagged("xclass-balance", f"{name}: total weight per class {tot} not balanced")
+        if blk == 0 and r.int() != c["astarget"]:
+            return tagged("xclass", "target flag")
+    if r.int() != 2:
+        return tagged("xclass-refuse", "a continuous feature / target was accepted by xclass_stats_t")
+    return None if r.done() else tagged("xclass", "trailing tokens")
+
+
 def oracle(aug, res):
     c = parse(aug)
+    if c["op"] == "xclass":
+        return oracle_xclass(c, res)
     eps = c["eps"]
     r = Toks(res)
     head = r.s()
@@ -476,6 +724,24 @@ def oracle(aug, res):
         # only the statistics are answered: mode none makes the cell checks of check_block trivially true
         S = [[(x if fin(x) else 0.0) for x in row] for row in data]
         return check_block("feature", data, sel, [True] * n, 0, st, S, S, eps)
+    if c["op"] == "t4":
+        if head != "ok":
+            return tagged("t4", f"implementation did not answer ok: {res[:80]}")
+        dims = (r.int(), r.int(), r.int())
+        if dims != (c["d1"], c["d2"], c["d3"]):
+            return tagged("t4-dims", f"target_dims {dims} != {(c['d1'], c['d2'], c['d3'])}")
+        tst = read_stats(r); fst2 = read_stats(r)
+        rows, n = c["rows"], c["cols"]
+        SY = chunk(r.fs(), n, rows); UY = chunk(r.fs(), n, rows); SF = chunk(r.fs(), n, rows)
+        if not r.done():
+            return tagged("t4", "trailing tokens in the answer")
+        # component (i, j, k) is column (i*d2 + j)*d3 + k of the rows: statistics and scaling are checked per component, each
+        # against the values of that component alone
+        why = check_block("target component", c["Y"], sel, [True] * n, c["tmode"], tst, SY, UY, eps)
+        if why:
+            return why
+        # the feature's tensor is only scaled by the harness: the round-trip slot gets the raw values (trivially equal)
+        return check_block("feature component", c["Y"], sel, [True] * n, c["tmode"], fst2, SF, c["Y"], eps)
     if head != "ok":
         return tagged("run", f"implementation did not answer ok: {res[:80]}")
     flag = r.int()
@@ -547,6 +813,12 @@ def compare(aug, impl, model):
     if len(a) != len(m) or not a or a[0] != "ok":
         return False
     c = parse(aug)
+    if c["op"] == "xclass":
+        # the weights divide by an Eigen reduction (sum of 1/count): relative 1e-12; everything else exact
+        for x, y in zip(a, m):
+            if x != y and not (vlib.is_hexf(x) and vlib.is_hexf(y) and len(x) == 16 and len(y) == 16 and vlib.close(h2f(x), h2f(y), 1e-12, 0.0)):
+                return False
+        return True
     if c["op"] != "run":
         return False
     rows, cols, tcols = c["rows"], c["cols"], c["tcols"]
@@ -610,6 +882,10 @@ def column_kind(c, col, sel):
 
 def nontrivial(op):
     c = parse(op)
+    if c["op"] == "xclass":
+        return len({tuple(c["labels"][i]) for i in c["samples"] if c["labels"][i][0] >= 0}) >= 2
+    if c["op"] == "t4":
+        return c["d1"] * c["d2"] * c["d3"] > 1 and len(c["samples"]) >= 1
     en = mask(c)
     sel = c["samples"]
     for j in range(c["cols"]):
@@ -628,6 +904,21 @@ def distribution(ops):
     for op in ops:
         c = parse(op)
         inc("op/" + c["op"])
+        if c["op"] == "xclass":
+            inc(f"xclass/{c['kind']}{'-target' if c['astarget'] else ''}")
+            inc("xclass-missing/" + ("some" if any(c["labels"][i][0] < 0 for i in c["samples"]) else "none"))
+            continue
+        if c["op"] == "t4":
+            inc(f"t4dims/{c['d1']}x{c['d2']}x{c['d3']}")
+        for j in range(c["cols"]):
+            if mask(c)[j]:
+                v = [c["X"][i][j] for i in c["samples"] if fin(c["X"][i][j])]
+                inc("N/" + (str(len(v)) if len(v) <= 3 else ">3"))
+                if len(v) >= 2:
+                    r_ = max(v) - min(v)
+                    inc("regime/range" + ("=eps" if r_ == EPS else "<eps" if r_ < EPS else ">eps"))
+                    sd = onepass_sd(v)
+                    inc("regime/sd" + ("=eps" if sd == EPS else "<eps" if sd < EPS else ">eps"))
         if c["op"] == "run":
             inc(f"modes/{c['xmode']}{c['tmode']}")
             inc("target/" + c["tkind"])
@@ -646,6 +937,20 @@ def distribution(ops):
 def shrink_candidates(op):
     c = parse(op)
     out = []
+    if c["op"] == "xclass":
+        for i in range(min(len(c["samples"]), 24)):
+            n = dict(c); n["samples"] = c["samples"][:i] + c["samples"][i + 1:]
+            out.append(fmt(n))
+        return out
+    if c["op"] == "t4":
+        for i in range(c["rows"]):
+            if c["rows"] > 1:
+                keep = [k for k in range(c["rows"]) if k != i]
+                idx = {old: new for new, old in enumerate(keep)}
+                n = dict(c); n["rows"] = len(keep); n["Y"] = [c["Y"][k] for k in keep]
+                n["samples"] = [idx[s_] for s_ in c["samples"] if s_ in idx]
+                out.append(fmt(n))
+        return out
     rows = c["rows"]
 
     def keep_rows(keep):
